@@ -342,6 +342,17 @@ func (w *JWorld) NextVersion(c *simrt.Chooser, doc *JDoc) string {
 			doc.Includes = []string{"new.journal"}
 		}
 	}
+	if w.DeepTree && doc.No == 4 && c.Pct("change-includes-new", 30) {
+		// the new, possibly never-saved document may have include lines of its own
+		switch c.Choose("new-includes", 3) {
+		case 0:
+			doc.Includes = nil
+		case 1:
+			doc.Includes = []string{"a.journal"}
+		case 2:
+			doc.Includes = []string{w.BName}
+		}
+	}
 	text, lines := w.GenJText(c, doc, doc.Marker, doc.Includes)
 	doc.Text, doc.Lines = text, lines
 	doc.Versions[doc.Marker] = text
